@@ -125,6 +125,30 @@ def gen_streams(rng, tier):
                 f[rng.randrange(len(f))] = rng.randrange(256)
                 parts.append(bytes(f))
         yield "mixed", b"".join(parts)
+    # 8. ONE reader, frames with a byte-identical body (kind, payload, checksum, end) under different headers: the XOR of the
+    #    four addressing / version bytes is the same, so the checksum does not tell them apart (C01.twin_frames_each_own_fields).
+    #    Each delivery must carry the header bytes of ITS OWN frame; other frames, noise, identical repeats and non-delivered
+    #    twins in between.
+    for label, s in twin_streams(rng, 120 if quick else 6000):
+        yield label, s
+
+
+def twin_streams(rng, n):
+    for _ in range(n):
+        kind = rng.choice(fg.FRAME_TYPES)
+        pl = fg.salted_payload(rng, rng.choice([0, 1, 1, 2, 5, 9, 30]))
+        mode, h, g = fg.twin_headers(rng, deliverable=rng.random() < 0.8)
+        a, b = fg.mk(kind, pl, *h), fg.mk(kind, pl, *g)
+        assert a[7:] == b[7:] and a[:7] != b[:7]
+        between = []
+        for _ in range(rng.choice([0, 0, 0, 1, 2])):
+            r = rng.random()
+            between.append(fg.rand_frame(rng, 12) if r < 0.4 else fg.mk(rng.choice([k for k in fg.FRAME_TYPES if k != kind]), pl, *h) if r < 0.7
+                           else a if r < 0.85 else bytes(x for x in (rng.randrange(256) for _ in range(rng.randint(1, 5))) if x != 0x68))
+        seq = [a] + between + [b]
+        if rng.random() < 0.5:
+            seq += [rng.choice([a, b, fg.mk(kind, pl, *fg.twin_headers(rng)[1])])]
+        yield "twins:" + mode, b"".join(seq)
 
 
 def chunkings(rng, n):
@@ -141,9 +165,13 @@ def run(ctx):
     pycode.check(res, random.Random(ctx["seed"] * 7919 + 77), ctx["tier"], ["frame", "reader"])
     res.rule = ("streams: every frame kind x boundary payload sizes; single-byte corruptions at every position; "
                 "XOR-preserving paired flips; the same delta on 2-4 positions of the whole frame incl. the end delimiter; XOR-zero / stored-zero checksum corruptions; truncations at every length; "
-                "noise (uniform, delimiter-dense, header-shaped); mixed streams; each under 3 chunkings; sessions on ONE reader object (direct / DummyProtocol.reader) "
+                "noise (uniform, delimiter-dense, header-shaped); mixed streams; TWINS: frames with a byte-identical body (kind, payload, checksum, end) under headers that "
+                "differ in two or four of recipient / sender / type / version with the same XOR, through ONE reader with other frames, repeats and noise between them "
+                "(each delivery judged on ITS OWN consumed bytes; every delivered object kept alive to the end: never the same object twice, fields unchanged by later reads); each under 3 chunkings; sessions on ONE reader object (direct / DummyProtocol.reader) "
                 "whose calls are abandoned by READER_TIMEOUT or cancellation after the delimiter, inside the header, at every position of a body, "
-                "then further bytes and calls -- incl. continuations that would form a frame when glued to what the abandoned call took. "
+                "then further bytes and calls -- incl. continuations that would form a frame when glued to what the abandoned call took; sessions whose calls are ALSO abandoned at "
+                "the last await of read() (Frame.create: the harness holds the executor job), with identical frames repeated, checksum-valid frames of UNKNOWN kinds repeated, "
+                "and delivered objects modified by the caller (addressing swapped, message / data / versions assigned) before the same bytes arrive again. "
                 "distinct = distinct stream bytes; non-trivial = contains a start delimiter followed by >= 6 bytes")
     cases = []
     for fn, ln in load_corpus("C01"):
@@ -157,7 +185,9 @@ def run(ctx):
     for label, s in cases:
         obs_by_chunk = []
         for cuts, lazy in chunkings(rng, len(s)):
-            obs_by_chunk.append((cuts if len(cuts) < 12 else "1-byte", lazy, reader.read_all(s, cuts, lazy)))
+            fresh = []
+            obs_by_chunk.append((cuts if len(cuts) < 12 else "1-byte", lazy, reader.read_all(s, cuts, lazy, fresh=fresh)))
+            report_fresh(res, dict(stream=s.hex(), cuts=list(cuts) if len(cuts) < 12 else "1-byte", lazy=lazy, label=label), fresh)
         impl.append(obs_by_chunk)
     answers = driver_batch("read " + hexs(s) for _, s in cases)
     judge(res, cases, impl)
@@ -185,9 +215,23 @@ def run(ctx):
     from common import Parts
     parts = Parts(res)
     parts.run("reader object re-used after abandoned calls", run_sessions, res, random.Random(ctx["seed"] * 7919 + 101), ctx["tier"])
+    parts.run("reader object re-used: calls abandoned at Frame.create, repeated / unknown-kind frames, deliveries modified by the caller",
+              run_sessionsx, res, random.Random(ctx["seed"] * 7919 + 103), ctx["tier"])
     parts.finish()
     res.failures.sort(key=lambda f: (f["kind"] != "spec", len(str(f.get("input")))))
     return res
+
+
+def report_fresh(res, inp, fresh):
+    """every frame delivered by one reader is kept alive until the stream ends (reader.check_fresh)"""
+    for i, what, detail in fresh:
+        if what == "changed-after-delivery":
+            res.fail("spec", inp, "a delivered frame keeps the kind, addressing and payload it was delivered with",
+                     dict(call=i, **detail), "a frame handed to the caller changed its fields after LATER calls of read() on the same reader: "
+                     "it no longer carries the bytes it was read from (delivered in altered form)")
+        else:
+            res.fail("corr", inp, "every delivering call hands out a new frame object (the model's deliveries are independent values)",
+                     dict(call=i, **detail), "one reader handed out the SAME frame object for two deliveries")
 
 
 # ---------------------------------------------------------------------------------------------
@@ -245,9 +289,21 @@ def gen_sessions(rng, tier):
             later = body + bytes([fg.xor(hdr + body), 0x16])
             first = quiet(rng.choice([0, 2])) + hdr + quiet(rng.randrange(0, total - 7))
         yield "session:glue", [first, quiet(rng.choice([0, 0, 3])) + later + own_frame() + own_frame()]
+    # 4. twins (byte-identical body, different header with the same XOR) on one reader with abandoned calls in between: the
+    #    later twin arrives after a call that blocked with nothing taken, after the delimiter only, or inside a header
+    for _ in range(60 if quick else 3000):
+        kind = rng.choice(fg.FRAME_TYPES)
+        pl = fg.salted_payload(rng, rng.choice([0, 1, 2, 5, 9]))
+        mode, h, g = fg.twin_headers(rng)
+        a, b = fg.mk(kind, pl, *h), fg.mk(kind, pl, *g)
+        stall = rng.choice([b"", b"", b"\x68", a[:rng.randint(2, 7)], quiet(2)])
+        chunks = [quiet(rng.choice([0, 0, 2])) + a + stall, b + rng.choice([b"", a, b, own_frame()])]
+        if rng.random() < 0.4:
+            chunks.append(rng.choice([a, b]) + own_frame())
+        yield "session:twins", chunks
 
 
-def _session(chunks, modes, via_dummy):
+def _session(chunks, modes, via_dummy, fresh_out=None):
     """-> canonical events: reader.read_all tuples for completed calls, ("A", taken, how) for abandoned ones"""
     import asyncio
     import vloop
@@ -264,6 +320,7 @@ def _session(chunks, modes, via_dummy):
         else:
             fr = FrameReader(sr)
         out, fed, before = [], 0, 0
+        kept = []
 
         def taken():
             nonlocal before
@@ -280,6 +337,7 @@ def _session(chunks, modes, via_dummy):
                 else:
                     out.append(("D", int(f.frame_type), int(f.recipient), int(f.sender), int(f.econet_type), int(f.econet_version),
                                 hexs(f.message), taken()))
+                    kept.append((len(out) - 1, f, reader._frame_fields(f)))
             elif isinstance(exc, ProtocolError):
                 out.append(("E", taken()))
             elif isinstance(exc, OSError) and not isinstance(exc, asyncio.TimeoutError):
@@ -301,6 +359,7 @@ def _session(chunks, modes, via_dummy):
                         break
                 if t.done() and not t.cancelled():
                     if not record(t):
+                        reader.check_fresh(kept, fresh)
                         return out
                     continue
                 # the call waits for bytes that do not come: it is abandoned
@@ -318,9 +377,14 @@ def _session(chunks, modes, via_dummy):
             await asyncio.gather(t, return_exceptions=True)
             if not record(t):
                 break
+        reader.check_fresh(kept, fresh)
         return out
 
-    return vloop.run(main())
+    fresh = []
+    ev = vloop.run(main())
+    if fresh_out is not None:
+        fresh_out.extend(fresh)
+    return ev
 
 
 class _NullWriter:
@@ -343,7 +407,9 @@ def run_sessions(res, rng, tier, cases=None):
     for label, chunks in cases:
         modes = [rng.choice(["timeout", "cancel"]) for _ in chunks]
         via = rng.random() < 0.4
-        obs.append((modes, via, _session(chunks, modes, via)))
+        fresh = []
+        obs.append((modes, via, _session(chunks, modes, via, fresh)))
+        report_fresh(res, dict(session=[c.hex() for c in chunks], abandoned_by=modes, via="DummyProtocol.reader" if via else "FrameReader", label=label), fresh)
     answers = driver_batch("session " + "+".join(hexs(c) for c in chunks) for _, chunks in cases)
     judge_reqs, judge_at = [], []
     for (label, chunks), (modes, via, ev), ans in zip(cases, obs, answers):
@@ -381,6 +447,224 @@ def run_sessions(res, rng, tier, cases=None):
                      dict(delivered=list(e), consumed=consumed.hex(), judge=v),
                      "a frame delivered by a reader that was used again after an abandoned (timed-out / cancelled) call is not "
                      "justified by the bytes consumed for it (C01.spec; C01.session_delivered_only_if_well_formed)")
+
+
+# ---------------------------------------------------------------------------------------------
+# one FrameReader object, calls abandoned at ANY await of read() -- the last one included: `await Frame.create(...)`
+# (class lookup + executor hop; the harness holds the executor job) -- identical frames repeated, frames of an unknown kind
+# repeated, and delivered objects MODIFIED by the caller between reads.  Model: Model/ReaderSession.sessionX
+# (C01.sessionX_calls_are_reads, sessionX_delivered_only_if_well_formed).
+
+UNKNOWN_KINDS = [k for k in range(256) if k not in fg.FRAME_TYPES]
+
+
+def gen_sessionsx(rng, tier):
+    """yield (label, steps, mutate); steps: ("f", bytes) | ("c",) | ("x",)"""
+    quick = tier == "quick"
+
+    def frame(kind=None, n=None):
+        return fg.mk(rng.choice(fg.FRAME_TYPES) if kind is None else kind, fg.salted_payload(rng, rng.choice([0, 1, 2, 5, 9]) if n is None else n),
+                     rng.choice([86, 0]), rng.choice([69, 81, 86, 0]), rng.choice([48, 49, rng.randrange(256)]), rng.choice([5, 6, rng.randrange(256)]))
+
+    def unknown():
+        return fg.mk(rng.choice(UNKNOWN_KINDS), fg.salted_payload(rng, rng.choice([0, 1, 3])), rng.choice([86, 0]), rng.choice([69, 81]))
+
+    for _ in range(40 if quick else 2000):
+        # (a) X delivered, a read of Y abandoned at Frame.create, Y again
+        x, y = frame(), frame()
+        if rng.random() < 0.3:
+            _, h, g = fg.twin_headers(rng)
+            y = fg.mk(x[7], x[8:-2], *g)
+            x = fg.mk(x[7], x[8:-2], *h)
+        steps = [("f", x), ("c",), ("f", y), ("x",), ("f", y + (rng.choice([b"", x, y, frame()]))), ("c",)]
+        if rng.random() < 0.3:
+            steps = steps[2:]                      # nothing delivered before
+        yield "sessionx:abandoned-at-create", steps, False
+    for _ in range(30 if quick else 1500):
+        # (b) checksum-valid, correctly addressed frames of an UNKNOWN kind, repeated
+        x, u = frame(), unknown()
+        seq = rng.choice([[x, u, u], [u, u], [x, u, x, u, u], [x, u, u, x], [u, x, u, u, u]])
+        if rng.random() < 0.5:
+            steps = [("f", b"".join(seq)), ("c",)]
+        else:
+            steps = [st for fr_ in seq for st in (("f", fr_), ("c",))]
+        yield "sessionx:unknown-kind-repeated", steps, False
+    for _ in range(40 if quick else 2000):
+        # (c) the caller modifies what it was handed; the same bytes arrive again
+        x, y = frame(), frame()
+        seq = rng.choice([[x, x], [x, x, x], [x, y, x], [x, y, y, x, x]])
+        steps = [st for fr_ in seq for st in (("f", fr_), ("c",))] if rng.random() < 0.6 else [("f", b"".join(seq)), ("c",)]
+        yield "sessionx:delivered-object-modified", steps, True
+    for _ in range(80 if quick else 6000):
+        # random histories over a SMALL pool of frames (identical repeats are the rule), every step kind
+        pool = [frame(), frame(), unknown(), fg.mk(rng.choice(fg.FRAME_TYPES), b"\x01", rng.choice([1, 69]), 69)]
+        pool.append(pool[0][:rng.randint(1, len(pool[0]) - 1)])          # a truncated frame: calls block inside it
+        steps = []
+        for _ in range(rng.randint(2, 9)):
+            r = rng.random()
+            steps.append(("f", rng.choice(pool)) if r < 0.5 else ("c",) if r < 0.8 else ("x",))
+        yield "sessionx:random", steps, rng.random() < 0.4
+
+
+def _mutate(f, k):
+    """what a caller may do to a frame it was handed"""
+    k = k % 4
+    if k == 0:
+        f.recipient, f.sender = f.sender, f.recipient
+    elif k == 1:
+        f.message = bytearray(b"\x99\x98\x97")
+    elif k == 2:
+        f.data = {"modified": k}
+    else:
+        f.econet_type, f.econet_version = (int(f.econet_type) ^ 0x55) & 0xFF, (int(f.econet_version) + 1) & 0xFF
+
+
+def _sessionx(steps, how, mutate, fresh):
+    import asyncio
+    import vloop
+    from pyplumio.exceptions import ProtocolError
+    from pyplumio.stream import FrameReader
+
+    async def main():
+        loop = asyncio.get_running_loop()
+        sr = asyncio.StreamReader()
+        fr = FrameReader(sr)
+        out, kept = [], []
+        st = dict(fed=0, before=0, n=0)
+
+        def taken():
+            n = st["fed"] - len(sr._buffer) - st["before"]
+            st["before"] += n
+            return n
+
+        def record(t):
+            exc = t.exception()
+            if exc is None:
+                f = t.result()
+                if f is None:
+                    out.append(("I", taken()))
+                else:
+                    fields = reader._frame_fields(f)
+                    out.append(("D",) + tuple(fields) + (taken(),) if len(fields) == 6 else ("X", fields[0], taken()))
+                    if mutate:
+                        try:
+                            _mutate(f, st["n"])
+                        except Exception:  # noqa: BLE001 -- a frame that cannot be modified is fine
+                            pass
+                        st["n"] += 1
+                    kept.append((len(out) - 1, f, reader._frame_fields(f)))
+            elif isinstance(exc, ProtocolError):
+                out.append(("E", taken()))
+            elif isinstance(exc, OSError) and not isinstance(exc, asyncio.TimeoutError):
+                out.append(("L", taken()))
+                return False
+            else:
+                out.append(("X", type(exc).__name__, taken()))
+                return False
+            return True
+
+        async def start(hold):
+            loop.hold = hold
+            t = asyncio.ensure_future(fr.read())
+            for _ in range(10000):
+                await asyncio.sleep(0)
+                if t.done() or sr._waiter is not None or loop.held:
+                    break
+            return t
+
+        async def abandon(t):
+            if how == "cancel":
+                t.cancel()
+            else:
+                await asyncio.sleep(11)          # READER_TIMEOUT is 10 s (virtual time)
+            loop.held.clear()                    # the executor job of an abandoned Frame.create never reports back
+            await asyncio.gather(t, return_exceptions=True)
+            ended = "cancelled" if t.cancelled() else type(t.exception()).__name__ if t.exception() else "returned"
+            out.append(("A", taken(), ended))
+
+        alive = True
+        for step in steps:
+            if step[0] == "f":
+                sr.feed_data(step[1])
+                st["fed"] += len(step[1])
+            elif step[0] == "c":
+                for _ in range(st["fed"] + 3):
+                    t = await start(False)
+                    if t.done() and not t.cancelled():
+                        alive = record(t)
+                        if not alive:
+                            break
+                        continue
+                    await abandon(t)
+                    break
+            else:
+                t = await start(True)
+                if t.done() and not t.cancelled():
+                    alive = record(t)
+                else:
+                    await abandon(t)
+            if not alive:
+                break
+        loop.hold = False
+        if alive:
+            sr.feed_eof()
+            for _ in range(st["fed"] + 3):
+                t = asyncio.ensure_future(fr.read())
+                await asyncio.gather(t, return_exceptions=True)
+                if not record(t):
+                    break
+        reader.check_fresh(kept, fresh)
+        return out
+
+    return vloop.run(main())
+
+
+def run_sessionsx(res, rng, tier, cases=None):
+    cases = list(gen_sessionsx(rng, tier)) if cases is None else cases
+    obs = []
+    for label, steps, mutate in cases:
+        how = rng.choice(["timeout", "cancel"])
+        fresh = []
+        obs.append((how, _sessionx(steps, how, mutate, fresh), fresh))
+    answers = driver_batch("sessionx " + ",".join("f" + hexs(st[1]) if st[0] == "f" else st[0] for st in steps) for _, steps, _ in cases)
+    judge_reqs, judge_at = [], []
+    for (label, steps, mutate), (how, ev, fresh), ans in zip(cases, obs, answers):
+        s = b"".join(st[1] for st in steps if st[0] == "f")
+        inp = dict(sessionx=[st[1].hex() if st[0] == "f" else st[0] for st in steps], abandoned_by=how, modified_after_delivery=mutate, label=label)
+        res.case(("sessionx", tuple(steps), mutate), True)
+        res.count("label:" + label)
+        report_fresh(res, inp, fresh)
+        model = []
+        for part in ans.split(";"):
+            w = part.split(" ")
+            model.append(("A", int(w[1])) if w[0] == "A" else reader.canon_model(reader.parse_model(part))[0])
+        canon, pos = [], 0
+        for e in ev:
+            n = e[-2] if e[0] == "A" else e[-1]
+            if e[0] == "A":
+                canon.append(("A", e[1]))
+                res.count("abandoned:" + e[2])
+                if e[2] not in ("cancelled", "TimeoutError"):
+                    res.fail("spec", inp, "TimeoutError / CancelledError", list(e), "an abandoned read() ended with something else than its time-out / cancellation")
+            else:
+                canon.append(tuple(e))
+                res.count("outcome-after-reuse:" + e[0])
+            if e[0] == "D":
+                judge_reqs.append(f"c01judge {hexs(s[pos:pos + n])} {e[1]} {e[2]} {e[3]} {e[4]} {e[5]} {e[6]}")
+                judge_at.append((inp, e, s[pos:pos + n]))
+            if e[0] == "X":
+                res.fail("spec", inp, "frame / None / protocol error / connection lost", list(e), "read() on a re-used reader raised something else")
+            pos += n
+        if canon != model:
+            res.fail("corr", inp, [list(x) for x in model], [list(x) for x in canon],
+                     "reader session model (sessionX: calls abandoned at any await of read(), Frame.create included) and one FrameReader object differ")
+    for (inp, e, consumed), v in zip(judge_at, driver_batch(judge_reqs)):
+        if v != "pass":
+            res.fail("spec", inp, "no delivery, or a delivery justified by the bytes that call consumed",
+                     dict(delivered=list(e), consumed=consumed.hex(), judge=v),
+                     "a frame delivered by a reader that was used again -- after a call abandoned while the frame object was being built, after "
+                     "a rejected frame, or after the caller modified an earlier delivery -- is not justified by the bytes consumed for it "
+                     "(C01.spec; C01.sessionX_delivered_only_if_well_formed)")
 
 
 def judge(res, cases, impl):
@@ -446,6 +730,17 @@ def neighbourhood(res, rng, differing, budget=6000):
 def replay(ctx):
     """re-run one recorded failing input on implementation and model"""
     f = ctx["replay"]["failure"] if "failure" in ctx["replay"] else ctx["replay"].get("first_difference")
+    if "sessionx" in f["input"]:
+        res = Result("C01")
+        res.rule = "replay of one recorded reader session (calls abandoned at any await, deliveries modified by the caller)"
+        i = f["input"]
+
+        class FixedX:
+            def choice(self, _):
+                return i["abandoned_by"]
+        steps = [(w,) if w in ("c", "x") else ("f", bytes.fromhex(w)) for w in i["sessionx"]]
+        run_sessionsx(res, FixedX(), "quick", [(i.get("label", "sessionx"), steps, bool(i.get("modified_after_delivery")))])
+        return res
     if "session" in f["input"]:
         res = Result("C01")
         res.rule = "replay of one recorded reader session"
@@ -468,7 +763,9 @@ def replay(ctx):
     cuts = f["input"].get("cuts") or ()
     if cuts == "1-byte":
         cuts = tuple(range(1, len(s)))
-    obs = reader.read_all(s, tuple(cuts), bool(f["input"].get("lazy")))
+    fresh = []
+    obs = reader.read_all(s, tuple(cuts), bool(f["input"].get("lazy")), fresh=fresh)
+    report_fresh(res, f["input"], fresh)
     ans = driver_batch(["read " + hexs(s)])[0]
     model = reader.canon_model(reader.parse_model(ans))
     ci = reader.canon_impl(obs)
